@@ -275,10 +275,9 @@ func (s *Solver) Check(tb *TB, extra *Term) (SatResult, string) {
 			return Unknown, r
 		}
 		if strings.HasPrefix(r, "(error") {
-			// keep reading until the verdict, then report inconclusive
-			rr, _ := s.readResponse()
+			// an error on check-sat produces no verdict
 			s.time += time.Since(start)
-			return Unknown, r + " / " + rr
+			return Unknown, r
 		}
 		// other noise: ignore
 	}
